@@ -75,7 +75,7 @@ def main():
                         ctx.broken.append(f"theorem {t} uses axioms {axioms[t]}")
                     else:
                         ctx.discharged.append(t)
-                bad = common.forbidden_words()
+                bad = common.forbidden_words(mod.LEAN_MODULES)
                 if bad:
                     ctx.broken.append("forbidden words in Lean sources: " + "; ".join(bad[:5]))
                     ctx.discharged = []
